@@ -86,7 +86,7 @@ ADDENDA = {
  'C04': ' Exceptions raised by tasks may carry an open handle; chains of a few hundred tasks; 36 000 histories in the quick tier.',
  'C11': ' The corpus also holds listings with any one table row missing and the listings of the documentation notebooks (a few crash points each).',
  'C14': ' Damaged files include valid pickles of the Env class with another state; a read or write that never returns is a violation (SIGALRM watchdog in the shard), not a harness error.',
- 'C19': ' A run that never comes back (a spinning directory-creation loop, a child blocked on a full pipe) is a violation; the shard stops after it. A last phase hands jobs with two distinct RunTasks of one name (one output directory), one reached through dependencies only, to collect_tasks: refused, or never collected together.',
+ 'C19': ' A run that never comes back (a spinning directory-creation loop, a child blocked on a full pipe) is a violation; the shard stops after it. A last phase hands jobs with two distinct RunTasks of one name (one output directory), one reached through dependencies only, to collect_tasks: refused, or never collected together. Another phase runs the same job 2-3 times in one simulated execution on real /bin/sh children (environment carried by merge_done_tasks, entries lost, statuses changing, output tree wiped in between) and judges statuses, return codes and captured files of each run against the ledger of the commands actually run in that run.',
 }
 for prop, text in ADDENDA.items():
     CHECKS[prop]['level_claimed']['text'] += text
